@@ -132,7 +132,7 @@ func (c *ChecksumChecker) checksum(t *ast.Task) (string, error) {
 }
 
 func (checker *ChecksumChecker) checksumFilePath(t *ast.Task) string {
-	return filepath.Join(checker.tempDir, "checksum", normalizeFilename(t.Name()))
+	return filepath.Join(checker.tempDir, "checksum", stateFilename(t.Name()))
 }
 
 var checksumFilenameRegexp = regexp.MustCompile("[^A-z0-9]")
@@ -140,4 +140,16 @@ var checksumFilenameRegexp = regexp.MustCompile("[^A-z0-9]")
 // replaces invalid characters on filenames with "-"
 func normalizeFilename(f string) string {
 	return checksumFilenameRegexp.ReplaceAllString(f, "-")
+}
+
+// stateFilename returns the name of the file that holds the fingerprint state
+// of the task with the given name. normalizeFilename is lossy ("a:b" and "a-b"
+// both give "a-b"), which would make different tasks share one state file, so
+// a name that had to be changed also gets a hash of the original appended.
+func stateFilename(name string) string {
+	normalized := normalizeFilename(name)
+	if normalized == name {
+		return normalized
+	}
+	return fmt.Sprintf("%s-%016x", normalized, xxh3.HashString(name))
 }
